@@ -118,6 +118,13 @@ type serverConn struct {
 
 	closer chan struct{}
 
+	// goAwayLck orders two things that happen on different goroutines: a stream
+	// being accepted (lastID moves) and a GOAWAY being written (lastID is read
+	// into it, and new streams are refused from then on). Without it a GOAWAY
+	// could promise less than was processed, and the peer would replay a
+	// request that already ran.
+	goAwayLck sync.Mutex
+
 	// resetSent holds the ids of the streams this side has reset or refused
 	// recently. The peer may have had frames for them on the wire before it saw
 	// the RST_STREAM; those are dropped rather than treated as an error, except
@@ -817,6 +824,32 @@ loop:
 					continue
 				}
 
+				if fr.Type() == FrameHeaders {
+					// A GOAWAY written by the read loop or a timer while this
+					// frame was on its way here has already told the peer the
+					// stream will not be processed.
+					sc.goAwayLck.Lock()
+
+					closing := isClosing()
+					if !closing {
+						sc.lastID = fr.Stream()
+					}
+
+					sc.goAwayLck.Unlock()
+
+					if closing {
+						sc.writeReset(fr.Stream(), RefusedStreamError)
+						markClosed(fr.Stream())
+
+						if err := sc.discardFrame(fr); err != nil {
+							sc.writeError(nil, err)
+							break loop
+						}
+
+						continue
+					}
+				}
+
 				strm = NewStream(fr.Stream(), curInitialWindow)
 				strms = append(strms, strm)
 
@@ -828,7 +861,6 @@ loop:
 				// HEADERS frame and streams that are reserved using PUSH_PROMISE.
 				if fr.Type() == FrameHeaders {
 					openStreams++
-					sc.lastID = fr.Stream()
 				}
 
 				sc.createStream(sc.c, fr.Type(), strm)
@@ -1076,19 +1108,30 @@ func (sc *serverConn) writeGoAway(strm uint32, code ErrorCode, message string) {
 
 	fr := AcquireFrameHeader()
 
-	ga.SetStream(strm)
+	// The last-stream-id is the highest stream this server accepted, whatever
+	// frame or stream prompted the GOAWAY: everything up to it may have been
+	// processed, nothing above it will be (RFC 7540 6.8). It used to be 0, or
+	// the id of the offending frame, so a client was told it could replay
+	// requests whose handlers had already run.
+	sc.goAwayLck.Lock()
+
+	lastID := sc.lastID
+
+	if strm != 0 {
+		atomic.StoreUint32(&sc.closeRef, lastID)
+	}
+
+	atomic.StoreInt32((*int32)(&sc.state), int32(connStateClosed))
+
+	sc.goAwayLck.Unlock()
+
+	ga.SetStream(lastID)
 	ga.SetCode(code)
 	ga.SetData([]byte(message))
 
 	fr.SetBody(ga)
 
 	sc.write(fr)
-
-	if strm != 0 {
-		atomic.StoreUint32(&sc.closeRef, sc.lastID)
-	}
-
-	atomic.StoreInt32((*int32)(&sc.state), int32(connStateClosed))
 
 	if sc.debug {
 		sc.logger.Printf(
